@@ -355,13 +355,32 @@ func (e *Exec) lock(recvExpr ast.Expr, c *Ctx, call *ast.CallExpr) {
 		// time passes while waiting for the lock
 		e.advanceTime(st, "0")
 	}
-	e.monitorInv(m, owner, st, c.fr, false, "")
 	mkey := owner.T.Name + "." + mu + "@" + owner.S
 	if e.mode == "conc" {
 		if rel, ok := e.relSnap[mkey]; ok {
 			e.monitorRely(m, owner, st, rel, c.fr, false, "")
 		}
+		// the contents of a protected map are protected state too: arbitrary after the acquire
+		ot := &Type{K: KRef, Name: owner.T.Name, St: owner.T.St, Subst: owner.T.Subst}
+		for _, pf := range m.Protects {
+			if strings.HasPrefix(pf, "smap(") {
+				continue
+			}
+			path := e.findField(ot, pf, 0)
+			if path == nil || path[0].Type.K != KMap {
+				continue
+			}
+			f := path[0]
+			mref := fmt.Sprintf("(select %s %s)", e.heapArr(st, owner.T.Name, f).S, owner.S)
+			da := e.mapDomArr(st, f.Type)
+			va := e.mapValArr(st, f.Type)
+			nd := e.vc.FreshConst("intf_dom", fmt.Sprintf("(Array %s Bool)", e.Sort(f.Type.Key)))
+			nv := e.vc.FreshConst("intf_val", fmt.Sprintf("(Array %s %s)", e.Sort(f.Type.Key), e.Sort(f.Type.Elem)))
+			e.set(st, "MD!"+mapKeyName(e, f.Type), Term{fmt.Sprintf("(store %s %s %s)", da.S, mref, nd), da.T})
+			e.set(st, "MV!"+mapKeyName(e, f.Type), Term{fmt.Sprintf("(store %s %s %s)", va.S, mref, nv), va.T})
+		}
 	}
+	e.monitorInv(m, owner, st, c.fr, false, "")
 	e.lockSnap = st.clone()
 	e.acqSnap[mkey] = e.lockSnap
 }
